@@ -443,6 +443,7 @@ func runC02(r *core.Run) int {
 	r.Parallel(nPat, func(i int, l *core.Local) {
 		rng := rand.New(rand.NewSource(base + int64(i)*1000003))
 		pc := makePattern(i, rng, [3]int{1, 3, 2}, 12)
+		noteCtx(l, pc)
 		if pc == nil {
 			return
 		}
